@@ -253,6 +253,17 @@ func (dsc *dataStoreCommand) setRange(keyName string, offset int, substring stri
 		setBytes = []byte{}
 	}
 
+	if len(substring) == 0 {
+		// nothing to write: report the current length, never create or pad
+		result.data = respInt(len(setBytes))
+		return
+	}
+
+	if offset > 512*1024*1024-len(substring) {
+		result.data = respErrorString("ERR string exceeds maximum allowed size (proto-max-bulk-len)")
+		return
+	}
+
 	if len(setBytes) < offset {
 		expanded := make([]byte, offset)
 		copy(expanded, setBytes)
